@@ -296,21 +296,28 @@ Calc(S) ==
   ELSE DiscAll([S EXCEPT !.q = SelectSeq(@, LAMBDA x : ~Expired(x))], SelectSeq(S.q, LAMBDA x : Expired(x)))
 
 \* handle_supervisor_evt for a terminated / failed actor
-\* retire = TRUE is the repaired code (a draining slot without queued jobs is retired instead of
-\* being given a replacement); retire = FALSE is the code as found (Dev_DrainingSlotReplaced)
+\* retire = TRUE is the repaired code (a dead worker whose slot is draining and holds no queued job
+\* is retired instead of being given a replacement; a draining slot left without work after the
+\* replacement is stopped at once); retire = FALSE is the code as found (Dev_DrainingSlotReplaced)
+RECURSIVE SweepIdleDraining(_)
+SweepIdleDraining(S) ==
+  LET ws == {w \in DOMAIN S.pool : S.pool[w].dr /\ Avail(S.pool[w])} IN
+  IF ws = {} THEN S
+  ELSE LET w == CHOOSE w \in ws : TRUE IN SweepIdleDraining(AddFx(PoolDel(S, w), Fx("wstop", S.pool[w].inc, 0, "")))
 HandleSupX(S, inc, ord, retire) ==
   LET ws == {w \in DOMAIN S.pool : S.pool[w].inc = inc} IN
-  IF ws = {} THEN S
+  IF ws = {} THEN (IF retire THEN SweepIdleDraining(S) ELSE S)
   ELSE LET w == CHOOSE w \in ws : TRUE IN
        IF retire /\ S.pool[w].dr /\ S.pool[w].mq = <<>>
-         THEN PoolDel(S, w)                                  \* repaired code: the slot is retired
+         THEN SweepIdleDraining(PoolDel(S, w))
          ELSE LET ni == S.ni + 1
-                  \* Dev_DrainingSlotReplaced: the replacement will hold no job, so nothing will ever retire it
-                  S0 == IF S.pool[w].dr /\ S.pool[w].mq = <<>> THEN [S EXCEPT !.dev = @ \cup {"DrainingSlotReplaced"}] ELSE S
-                  S1 == AddFx([S0 EXCEPT !.ni = ni, !.born = @ \cup {ni}], Fx("spawn", w, ni, ""))
+                  S1 == AddFx([S EXCEPT !.ni = ni, !.born = @ \cup {ni}], Fx("spawn", w, ni, ""))
                   S2 == ReplaceWorker(S1, w, ni)
                   S3 == TryRouteNext(S2, w, ord)
-              IN IF Avail(S3.pool[w]) THEN AvailChange(S3, w, TRUE) ELSE S3
+                  S4 == IF Avail(S3.pool[w]) THEN AvailChange(S3, w, TRUE) ELSE S3
+              IN IF retire THEN SweepIdleDraining(S4)
+                 \* Dev_DrainingSlotReplaced: the replacement of a draining slot holds no job, so nothing will ever retire it
+                 ELSE IF S4.pool[w].dr /\ Avail(S4.pool[w]) THEN [S4 EXCEPT !.dev = @ \cup {"DrainingSlotReplaced"}] ELSE S4
 
 \* reply_with_available_capacity
 RECURSIVE SumSeq(_)
